@@ -284,6 +284,30 @@ example : flatten exFont.glyph 5 5 = some [([9, 70, 8, 60], some 102), ([9, 71],
 /-- the keep-full branch is taken when more than half of the glyphs are needed -/
 example : subsetChars exFont 200000 7 false [65, 66] = .full [(65, 5)] := by decide
 
+/-! ## 3b. CFF (`cff_subsetter::subset_cff_font`) — glyph selection and renumbering only
+
+/- FULL (not proved): the rebuilt CID-keyed CFF *bytes* (Top DICT, charset, FDSelect, FDArray,
+   Private DICT, desubroutinised CharStrings INDEX) decode, with a Type 2 interpreter, to the same
+   outlines and widths.  PARTIAL: only the selection/renumbering is modelled and proved; the bytes
+   are checked per run by the harness's independent CFF reader (structure + flattened token
+   streams + resolved width), there is no outline-level charstring semantics. -/ -/
+
+theorem C12_cff_requested_glyph_kept_partial (cmap : Nat → Option Gid) (fact : Gid → CffRow)
+    (used : List Nat) (c : Nat) (g : Gid) (hc : c ∈ used) (hg : cmap c = some g) :
+    ∃ g', (c, g') ∈ (cffSubset cmap fact used).1 ∧
+      (cffSubset cmap fact used).2[g']? = some (fact g) := by
+  obtain ⟨_, hnd, hin⟩ := C12_initNeeded used cmap
+  have hgS : g ∈ sortGids (initNeeded used cmap) := (sortGids_mem _ _).mpr (hin c hc g hg)
+  have hi := List.idxOf_lt_length_iff.mpr hgS
+  refine ⟨(sortGids (initNeeded used cmap)).idxOf g, ?_, ?_⟩
+  · exact List.mem_filterMap.mpr ⟨c, hc, by simp [hg, remap?_of_mem hgS]⟩
+  · simp only [cffSubset, List.getElem?_map, List.getElem?_eq_getElem hi, Option.map_some,
+      List.getElem_idxOf hi]
+
+example : cffSubset (fun c => if c = 65 then some 9 else if c = 66 then some 4 else none)
+    (fun g => ⟨toString (500 + g), g⟩) [66, 65, 67] = ([(66, 1), (65, 2)], [⟨"500", 0⟩, ⟨"504", 4⟩, ⟨"509", 9⟩]) := by
+  decide
+
 /-! ## 4. `loca`: the byte-level step below the abstraction
 
 /- FULL: for every list of glyph lengths and either format, a reader of the written `loca`
